@@ -542,5 +542,142 @@ theorem lookup_name {t : SymTab} {symB strB : Bytes} (h : Wf t symB strB) (hv : 
       exact ⟨⟨fun _ => by rw [hl]; rfl, fun _ => rfl⟩, fun _ => ⟨j, hj, hn, ha⟩, fun _ _ => ⟨j, hl, ha⟩⟩
 
 
+
+/-- the `ELF_ST_INFO` / `ELF_ST_BIND` / `ELF_ST_TYPE` uses in the accessor are the gABI macros, and
+    unpacking a packed pair gives back the low four bits of each -/
+theorem st_info_spec (b ty i : BitVec 8) :
+    sym_st_info b ty = Spec.stInfo b ty ∧ sym_st_info_str b ty = Spec.stInfo b ty ∧
+    sym32_get_bind i = Spec.stBind i ∧ sym64_get_bind i = Spec.stBind i ∧
+    sym32_get_type i = Spec.stType i ∧ sym64_get_type i = Spec.stType i ∧
+    Spec.stBind (Spec.stInfo b ty) = b &&& 0xf ∧ Spec.stType (Spec.stInfo b ty) = ty &&& 0xf :=
+  ⟨st_info_gen b ty, st_info_str_gen b ty, st_bind_gen32 i, st_bind_gen64 i, st_type_gen32 i, st_type_gen64 i,
+   st_bind_info b ty, st_type_info b ty⟩
+
+/-- **read-outs are functions of the section contents and header fields only** : two tables of the
+    same class/encoding whose symbol and string sections expose the same bytes (e.g. the table that
+    was built and the table obtained by saving and reloading it) answer every by-index, by-value
+    and count query identically, and every by-name query when neither has a hash section. -/
+theorem readout_content_only {t t' : SymTab} {symB strB : Bytes} (h : Wf t symB strB) (h' : Wf t' symB strB)
+    (hc : t.cfg = t'.cfg) :
+    t.symbolsNum = t'.symbolsNum ∧
+    (∀ i str a, t.getSymbol i str a = t'.getSymbol i str a) ∧
+    (∀ v str a, t.getByValue v str a = t'.getByValue v str a) ∧
+    (t.hash = none → t'.hash = none → ∀ name a, t.getByName name a = t'.getByName name a) := by
+  have hn : t.symbolsNum = t'.symbolsNum := by rw [symbolsNum_eq h, symbolsNum_eq h', hc]
+  have hg : ∀ i str a, t.getSymbol i str a = t'.getSymbol i str a := by
+    intro i str a; rw [getSymbol_decoded h, getSymbol_decoded h', hc]
+  refine ⟨hn, hg, ?_, ?_⟩
+  · intro v str a; rw [lookup_value h, lookup_value h', hc]
+  · intro e e' name a
+    unfold getByName hashPhase
+    rw [e, e', hn]
+    simp only [bind, Except.bind, pure, Except.pure, Bool.false_eq_true, if_false]
+    cases t'.symbolsNum with
+    | error x => rfl
+    | ok n => exact linearGo_congr hg name _ _ _
+
+/-- the table an eager or lazy load produces from sections holding `symB` / `strB`
+    (loader abstraction of C07: `SecBuf.loadedEager` / `loadedLazy`; standard entry size; the
+    stream is at least as long as the section) -/
+def loadedTab (cfg : Cfg) (lz : Bool) (symB strB : Bytes) (ss : BitVec 64) : SymTab :=
+  let mk (ty : Nat) (d : Bytes) : SecBuf :=
+    if lz then SecBuf.loadedLazy cfg.cls (BitVec.ofNat 32 ty) d ss else SecBuf.loadedEager cfg.cls (BitVec.ofNat 32 ty) d ss
+  { cfg, sym := { mk SHT_SYMTAB symB with entSize := BitVec.ofNat 64 (symSizeOf cfg.cls) },
+    str := some (mk SHT_STRTAB strB), hash := none }
+
+theorem inv_entSize {b : SecBuf} (e : BitVec 64) (h : b.Inv) :
+    SecBuf.Inv { b with entSize := e } ∧ SecBuf.content { b with entSize := e } = b.content := by
+  rcases h with h | ⟨d, h⟩
+  · exact ⟨Or.inl ⟨h.notNobits, h.pend, h.buf, h.cap⟩, rfl⟩
+  · exact ⟨Or.inr ⟨d, ⟨h.isLazy, h.notLoaded, h.canLoad, h.noData, h.fileData, h.len, h.typeOk⟩⟩, rfl⟩
+
+/-- a loaded table is well-formed for the readers, with exactly the file's bytes -/
+theorem wf_loaded (cfg : Cfg) (lz : Bool) (symB strB : Bytes) (ss : BitVec 64)
+    (h1 : symB.length ≤ ss.toNat) (h2 : strB.length < 18446744073709551616) :
+    Wf (loadedTab cfg lz symB strB ss) symB strB := by
+  have hs := ss.isLt
+  have hl : symB.length < 18446744073709551616 := by omega
+  have hn : (BitVec.ofNat 64 symB.length).toNat = symB.length := by
+    simp only [BitVec.toNat_ofNat, Nat.reducePow]; omega
+  cases lz
+  · obtain ⟨i1, c1⟩ := C07.loaded_inv cfg.cls (BitVec.ofNat 32 SHT_SYMTAB) symB ss (by simp [SHT_SYMTAB, SHT_NOBITS]) hl
+    obtain ⟨i2, c2⟩ := C07.loaded_inv cfg.cls (BitVec.ofNat 32 SHT_STRTAB) strB ss (by simp [SHT_STRTAB, SHT_NOBITS]) h2
+    obtain ⟨j1, d1⟩ := inv_entSize (BitVec.ofNat 64 (symSizeOf cfg.cls)) i1
+    refine ⟨rfl, ?_, ?_, ?_⟩
+    · show (SecBuf.loadedEager cfg.cls (BitVec.ofNat 32 SHT_SYMTAB) symB ss).size.toNat ≤ ss.toNat
+      simp only [SecBuf.loadedEager, hn]; exact h1
+    · have := readsAs_of_inv j1; rw [d1, c1] at this; exact this
+    · have := readsAs_of_inv i2; rw [c2] at this; exact this
+  · obtain ⟨i1, c1⟩ := C07.lazy_inv cfg.cls (BitVec.ofNat 32 SHT_SYMTAB) symB ss (by simp [SHT_SYMTAB, SHT_NOBITS])
+      (by simp [SHT_SYMTAB, SHT_NULL]) hl
+    obtain ⟨i2, c2⟩ := C07.lazy_inv cfg.cls (BitVec.ofNat 32 SHT_STRTAB) strB ss (by simp [SHT_STRTAB, SHT_NOBITS])
+      (by simp [SHT_STRTAB, SHT_NULL]) h2
+    obtain ⟨j1, d1⟩ := inv_entSize (BitVec.ofNat 64 (symSizeOf cfg.cls)) i1
+    refine ⟨rfl, ?_, ?_, ?_⟩
+    · show (SecBuf.loadedLazy cfg.cls (BitVec.ofNat 32 SHT_SYMTAB) symB ss).size.toNat ≤ ss.toNat
+      simp only [SecBuf.loadedLazy, hn]; exact h1
+    · have := readsAs_of_inv j1; rw [d1, c1] at this; exact this
+    · have := readsAs_of_inv i2; rw [c2] at this; exact this
+
+/-- **round trip through save + reload, given that the file holds the section contents** :
+    the reloaded table answers by index exactly like the table that was built -/
+theorem sym_roundtrip_reloaded (cfg : Cfg) (as : List AddArgs) (hf : Fits as) (lz : Bool) (ss : BitVec 64)
+    (hss : (tableBytes cfg (recsOf as)).length ≤ ss.toNat) :
+    ∃ t, (∃ idx, addAll (SymTab.fresh cfg) as = .ok (t, idx)) ∧
+      let t' := loadedTab cfg lz (tableBytes cfg (recsOf as)) (Spec.strtabBytes (namesOf as)) ss
+      t'.symbolsNum = t.symbolsNum ∧ (∀ i str a, t'.getSymbol i str a = t.getSymbol i str a) ∧
+      (∀ v str a, t'.getByValue v str a = t.getByValue v str a) ∧
+      (∀ name a, t'.getByName name a = t.getByName name a) := by
+  obtain ⟨t, s, e, _, _, _, wf⟩ := sym_bytes cfg as hf
+  obtain ⟨t0, e0, b⟩ := addAll_built (cfg := cfg) as (built_fresh cfg) (by simpa using hf)
+  simp only [List.nil_append, List.length_nil, Nat.zero_add] at e0
+  rw [e] at e0; cases e0
+  have hstr : (Spec.strtabBytes (namesOf as)).length < 18446744073709551616 := by
+    have := hf.2
+    by_cases hn : namesOf as = []
+    · rw [hn]; simp [Spec.strtabBytes]
+    · rw [Spec.strtabBytes_length _ hn]; omega
+  have wf' := wf_loaded cfg lz _ _ ss hss hstr
+  obtain ⟨r1, r2, r3, r4⟩ := readout_content_only wf' wf (by rw [b.cfgEq]; rfl)
+  exact ⟨t, ⟨_, e⟩, r1, r2, r3, r4 rfl b.hash⟩
+
+/-! ### non-vacuity: concrete inputs meet the hypotheses -/
+
+def exA : AddArgs := ⟨[0x66, 0x6f, 0x6f], 0x1122334455667788#64, 7#64, 1#8, 2#8, 3#8, 0xfff1#16⟩
+def exB : AddArgs := ⟨[0x62], 5#64, 6#64, 0#8, 1#8, 0#8, 2#16⟩
+
+example : Fits [exA, exB] := by simp [Fits, namesOf, Spec.strTotal, exA, exB]
+example : ∀ a ∈ [exA, exB], (0 : UInt8) ∉ a.name := by decide
+example : expected .c32 exA = { value := 0x55667788#64, size := 7#64, bind := 1#8, typ := 2#8, shndx := 0xfff1#16, other := 3#8 } := by
+  decide
+/-- the record bytes the specification prescribes for `exA` in ELF32 / MSB at name offset 1 -/
+example : Spec.encodeSym ⟨.c32, .msb⟩ (recOf exA 1) =
+    [0, 0, 0, 1, 0x55, 0x66, 0x77, 0x88, 0, 0, 0, 7, 0x12, 3, 0xff, 0xf1] := by decide
+example : Spec.sysvHash [0x66, 0x6f, 0x6f] = 27999#32 := by decide
+example : Spec.gnuHash [0x66, 0x6f, 0x6f] = 193491849#32 := by decide
+
+
+/-- a two-entry ELF32/LSB table (null symbol, one symbol named "b" with value 5) and its strings -/
+def exSym : Bytes := [0,0,0,0, 0,0,0,0, 0,0,0,0, 0,0,0,0,  1,0,0,0, 5,0,0,0, 6,0,0,0, 0x12,0,2,0]
+def exStr : Bytes := [0, 0x62, 0]
+example : Wf (loadedTab ⟨.c32, .lsb⟩ false exSym exStr 1000#64) exSym exStr :=
+  wf_loaded _ _ _ _ _ (by decide) (by decide)
+example : countOf .c32 exSym = 2 := by decide
+example : ValidNames ⟨.c32, .lsb⟩ exSym exStr := by
+  intro j hj
+  have : j = 0 ∨ j = 1 := by have : countOf .c32 exSym = 2 := by decide
+                             simp only [this] at hj; omega
+  rcases this with rfl | rfl <;> decide
+example : Spec.lookupName (namesOfTable ⟨.c32, .lsb⟩ exSym exStr) [0x62] = some 1 := by decide
+example : Spec.lookupValue (valuesOf ⟨.c32, .lsb⟩ exSym) 5 = some 1 := by decide
+
+/-- fix 09-hash-lookup-empty-name, on the model: an empty symbol table accompanied by a well-formed
+    SysV hash table (1 bucket, 0 chain entries) does not "find" the empty name -/
+def exEmptySysv : SymTab :=
+  { loadedTab ⟨.c64, .lsb⟩ false [] [] 1000#64 with
+    hash := some (SecBuf.loadedEager .c64 (BitVec.ofNat 32 SHT_HASH) [1,0,0,0, 0,0,0,0, 0,0,0,0] 1000#64) }
+example : (exEmptySysv.getByName [] {}).toOption = some (false, {}) := by rfl
+
+
 end C09
 end ElfioVerif
